@@ -83,11 +83,14 @@ where
         key_bundle: LongTermKeyBundle,
     ) -> Result<KeyRegistryState<ID>, KeyRegistryError> {
         key_bundle.verify()?;
-        let existing = y.identities.insert(id, *key_bundle.identity_key());
-        if let Some(existing) = existing {
-            // Sanity check.
-            assert_eq!(&existing, key_bundle.identity_key());
+        // A member is bound to the identity key we've first seen for them. Bundles come from
+        // remote peers, so a different key is an error and not a reason to panic.
+        if let Some(existing) = y.identities.get(&id) {
+            if existing != key_bundle.identity_key() {
+                return Err(KeyRegistryError::IdentityKeyMismatch);
+            }
         }
+        y.identities.insert(id, *key_bundle.identity_key());
         y.longterm_bundles
             .entry(id)
             .and_modify(|bundles| bundles.push(key_bundle.clone()))
@@ -118,11 +121,14 @@ where
         key_bundle: OneTimeKeyBundle,
     ) -> Result<KeyRegistryState<ID>, KeyRegistryError> {
         key_bundle.verify()?;
-        let existing = y.identities.insert(id, *key_bundle.identity_key());
-        if let Some(existing) = existing {
-            // Sanity check.
-            assert_eq!(&existing, key_bundle.identity_key());
+        // A member is bound to the identity key we've first seen for them. Bundles come from
+        // remote peers, so a different key is an error and not a reason to panic.
+        if let Some(existing) = y.identities.get(&id) {
+            if existing != key_bundle.identity_key() {
+                return Err(KeyRegistryError::IdentityKeyMismatch);
+            }
         }
+        y.identities.insert(id, *key_bundle.identity_key());
         y.onetime_bundles
             .entry(id)
             .and_modify(|bundles| bundles.push(key_bundle.clone()))
@@ -207,6 +213,9 @@ pub enum KeyRegistryError {
 
     #[error("all available key bundles of this member expired")]
     KeyBundlesExpired,
+
+    #[error("key bundle uses a different identity key than the one known for this member")]
+    IdentityKeyMismatch,
 }
 
 #[cfg(test)]
